@@ -22,7 +22,20 @@ type SrvReqOps interface {
 }
 
 // Respond to the request with Rerror message
+// answered reports whether a response to the request was already produced. The
+// Respond* helpers check it before they touch req.Rc: once a response is queued the
+// buffer belongs to the sender goroutine (and, recycled, to later requests).
+func (req *SrvReq) answered() bool {
+	req.Lock()
+	defer req.Unlock()
+	return req.status&reqResponded != 0
+}
+
 func (req *SrvReq) RespondError(err interface{}) {
+	if req.answered() {
+		return
+	}
+
 	switch e := err.(type) {
 	case *Error:
 		_ = PackRerror(req.Rc, e.Error(), uint32(e.Errornum), req.Conn.Dotu)
@@ -37,6 +50,10 @@ func (req *SrvReq) RespondError(err interface{}) {
 
 // Respond to the request with Rversion message
 func (req *SrvReq) RespondRversion(msize uint32, version string) {
+	if req.answered() {
+		return
+	}
+
 	err := PackRversion(req.Rc, msize, version)
 	if err != nil {
 		req.RespondError(err)
@@ -47,6 +64,10 @@ func (req *SrvReq) RespondRversion(msize uint32, version string) {
 
 // Respond to the request with Rauth message
 func (req *SrvReq) RespondRauth(aqid *Qid) {
+	if req.answered() {
+		return
+	}
+
 	err := PackRauth(req.Rc, aqid)
 	if err != nil {
 		req.RespondError(err)
@@ -57,6 +78,10 @@ func (req *SrvReq) RespondRauth(aqid *Qid) {
 
 // Respond to the request with Rflush message
 func (req *SrvReq) RespondRflush() {
+	if req.answered() {
+		return
+	}
+
 	err := PackRflush(req.Rc)
 	if err != nil {
 		req.RespondError(err)
@@ -67,6 +92,10 @@ func (req *SrvReq) RespondRflush() {
 
 // Respond to the request with Rattach message
 func (req *SrvReq) RespondRattach(aqid *Qid) {
+	if req.answered() {
+		return
+	}
+
 	err := PackRattach(req.Rc, aqid)
 	if err != nil {
 		req.RespondError(err)
@@ -77,6 +106,10 @@ func (req *SrvReq) RespondRattach(aqid *Qid) {
 
 // Respond to the request with Rwalk message
 func (req *SrvReq) RespondRwalk(wqids []Qid) {
+	if req.answered() {
+		return
+	}
+
 	err := PackRwalk(req.Rc, wqids)
 	if err != nil {
 		req.RespondError(err)
@@ -87,6 +120,10 @@ func (req *SrvReq) RespondRwalk(wqids []Qid) {
 
 // Respond to the request with Ropen message
 func (req *SrvReq) RespondRopen(qid *Qid, iounit uint32) {
+	if req.answered() {
+		return
+	}
+
 	err := PackRopen(req.Rc, qid, iounit)
 	if err != nil {
 		req.RespondError(err)
@@ -97,6 +134,10 @@ func (req *SrvReq) RespondRopen(qid *Qid, iounit uint32) {
 
 // Respond to the request with Rcreate message
 func (req *SrvReq) RespondRcreate(qid *Qid, iounit uint32) {
+	if req.answered() {
+		return
+	}
+
 	err := PackRcreate(req.Rc, qid, iounit)
 	if err != nil {
 		req.RespondError(err)
@@ -107,6 +148,10 @@ func (req *SrvReq) RespondRcreate(qid *Qid, iounit uint32) {
 
 // Respond to the request with Rread message
 func (req *SrvReq) RespondRread(data []byte) {
+	if req.answered() {
+		return
+	}
+
 	err := PackRread(req.Rc, data)
 	if err != nil {
 		req.RespondError(err)
@@ -117,6 +162,10 @@ func (req *SrvReq) RespondRread(data []byte) {
 
 // Respond to the request with Rwrite message
 func (req *SrvReq) RespondRwrite(count uint32) {
+	if req.answered() {
+		return
+	}
+
 	err := PackRwrite(req.Rc, count)
 	if err != nil {
 		req.RespondError(err)
@@ -127,6 +176,10 @@ func (req *SrvReq) RespondRwrite(count uint32) {
 
 // Respond to the request with Rclunk message
 func (req *SrvReq) RespondRclunk() {
+	if req.answered() {
+		return
+	}
+
 	err := PackRclunk(req.Rc)
 	if err != nil {
 		req.RespondError(err)
@@ -137,6 +190,10 @@ func (req *SrvReq) RespondRclunk() {
 
 // Respond to the request with Rremove message
 func (req *SrvReq) RespondRremove() {
+	if req.answered() {
+		return
+	}
+
 	err := PackRremove(req.Rc)
 	if err != nil {
 		req.RespondError(err)
@@ -147,6 +204,10 @@ func (req *SrvReq) RespondRremove() {
 
 // Respond to the request with Rstat message
 func (req *SrvReq) RespondRstat(st *Dir) {
+	if req.answered() {
+		return
+	}
+
 	err := PackRstat(req.Rc, st, req.Conn.Dotu)
 	if err != nil {
 		req.RespondError(err)
@@ -157,6 +218,10 @@ func (req *SrvReq) RespondRstat(st *Dir) {
 
 // Respond to the request with Rwstat message
 func (req *SrvReq) RespondRwstat() {
+	if req.answered() {
+		return
+	}
+
 	err := PackRwstat(req.Rc)
 	if err != nil {
 		req.RespondError(err)
